@@ -1,6 +1,8 @@
 package chain
 
 import (
+	"os"
+	"runtime/debug"
 	"bytes"
 	"crypto/sha256"
 	"encoding/hex"
@@ -186,6 +188,9 @@ func (f *Fam) guard(fn func() string) (res string) {
 				msg = msg[:120]
 			}
 			f.extra["halt:"+strings.ReplaceAll(msg, "\n", " ")]++
+			if os.Getenv("VERIF_STACK") != "" {
+				fmt.Fprintf(os.Stderr, "halt: %v\n%s\n", e, debug.Stack())
+			}
 			res = "halt"
 		}
 	}()
@@ -501,6 +506,9 @@ func (f *Fam) txBytes(t txSpec) ([]byte, sdk.Msg) {
 	}
 	memo := strings.Repeat("m", t.memo)
 	chain := ChainID
+	if t.mut == "chain" { // signed for another chain
+		chain += "x"
+	}
 	signBytes, err := authTypes.StdSignBytes(chain, t.ent, fee, msg, memo)
 	if err != nil {
 		panic(err)
@@ -538,6 +546,29 @@ func (f *Fam) txBytes(t txSpec) ([]byte, sdk.Msg) {
 		fee = sdk.NewCoins(sdk.NewCoin(Denom, t.fee.AddRaw(1)))
 	case "memo":
 		memo += "x"
+	case "memosp": // only white space is added to the signed memo
+		memo += " "
+	case "memopre":
+		memo = "\t" + memo
+	case "msg": // a field of the signed message is changed (where the message has one besides its signer)
+		t2 := t
+		t2.f = map[string]string{}
+		for k, v := range t.f {
+			t2.f[k] = v
+		}
+		switch t.kind {
+		case "send", "stake", "daotransfer", "daoburn":
+			t2.f["amt"] = mustInt(t.f["amt"]).AddRaw(1).String()
+			msg = f.buildMsg(t2)
+		case "upgrade":
+			t2.f["h"] = fmt.Sprint(atoi(t.f["h"]) + 1)
+			msg = f.buildMsg(t2)
+		case "changeparam":
+			t2.f["val"] = t.f["val"] + "20"
+			msg = f.buildMsg(t2)
+		default:
+			memo += " "
+		}
 	case "ent":
 		t.ent++
 	case "emptysig":
